@@ -140,3 +140,46 @@ func replayPeriodic(m map[string]interface{}) {
 }
 
 var _ = engine.Hex
+
+// deepSpace: sequences of five and six messages (thorough seven) over six
+// kinds, with and without running status, in one piece and bytewise (see the
+// same family in C14: what the listener keeps from several messages ago).
+var deepKinds = []string{"NoteOn0a", "NoteOn1", "CC0", "Prog0", "SysExMin", "Clock"}
+
+func deepSpace(first int) {
+	var kinds []ls.SMsg
+	for _, k := range deepKinds {
+		for _, a := range alphabet {
+			if a.Name == k {
+				kinds = append(kinds, a)
+			}
+		}
+	}
+	maxDepth := ctx.Pick(6, 7)
+	seq := make([]ls.SMsg, maxDepth)
+	var rec func(i, depth int)
+	rec = func(i, depth int) {
+		if i == depth {
+			for _, elide := range []bool{false, true} {
+				wire := ls.SerializeLong(seq[:depth], elide)
+				play(append([]ls.SMsg(nil), seq[:depth]...), wire, []int{len(wire)}, []int32{2}, "deep")
+				bw := make([]int, len(wire))
+				sl := make([]int32, len(wire))
+				for k := range bw {
+					bw[k] = 1
+					sl[k] = int32(k % 2)
+				}
+				play(append([]ls.SMsg(nil), seq[:depth]...), wire, bw, sl, "deep")
+			}
+			return
+		}
+		for _, m := range kinds {
+			seq[i] = m
+			rec(i+1, depth)
+		}
+	}
+	for depth := 5; depth <= maxDepth; depth++ {
+		seq[0] = kinds[first]
+		rec(1, depth)
+	}
+}
